@@ -21,7 +21,7 @@ from kv import coqio
 ROOT = pathlib.Path(__file__).resolve().parents[2]
 COQ = ROOT / 'coq'
 BUILD = ROOT / 'build'
-EVIDENCE = ROOT / 'evidence'
+EVIDENCE = pathlib.Path(os.environ['VERIF_EVIDENCE_DIR']) if os.environ.get('VERIF_EVIDENCE_DIR') else ROOT / 'evidence'
 REPO = pathlib.Path(os.environ.get('KOPF_REPO', '/repo'))
 JOBS = int(os.environ.get('VERIF_JOBS', '8'))
 
